@@ -93,6 +93,29 @@ func runC10(c any, x *kit.Ctx) {
 		} else {
 			check(buf.Bytes(), "WrapV1")
 		}
+		// a source with trailing null padding, wrapped with ZeroLengthSectionAsEOF: the source bytes
+		// are still carried unmodified and the header must describe all of them
+		if len(cs.Seq) <= 2 {
+			padded := append(append([]byte{}, payload...), 0, 0, 0, 0, 0)
+			oz := o
+			oz.ZeroEOF = true
+			var zb bytes.Buffer
+			if err := carv2.WrapV1(bytes.NewReader(padded), &zb, oz.List()...); err != nil {
+				x.Fail("c10:wrap-null-padded-error", "WrapV1 with ZeroLengthSectionAsEOF fails on a null-padded CARv1: %v", err)
+			} else {
+				got := zb.Bytes()
+				if len(got) < 51+len(padded) || !bytes.Equal(got[51:51+len(padded)], padded) {
+					x.Fail("c10:wrap-null-padded-payload", "WrapV1 of a null-padded source does not carry the source bytes unmodified")
+				} else {
+					h := refcar.ParseV2Header(got[11:51])
+					if h.DataOffset != 51 || h.DataSize != uint64(len(padded)) || h.IndexOffset != 51+uint64(len(padded)) {
+						x.Fail("c10:wrap-null-padded-header", "WrapV1 of a null-padded source: header %+v does not describe the %d source bytes", h, len(padded))
+					} else if norm, _, err := normaliseIndexBytes(got[h.IndexOffset:]); err != nil || !bytes.Equal(norm, wantIdx) {
+						x.Fail("c10:wrap-null-padded-index", "WrapV1 of a null-padded source: index differs from the index of the sections (err %v)", err)
+					}
+				}
+			}
+		}
 		if cs.Codec == "" && !cs.SID {
 			src := filepath.Join(x.Dir, "c10-src.car")
 			dst := filepath.Join(x.Dir, "c10-dst.car")
